@@ -19,6 +19,7 @@ Line protocol of the C03 driver (one line in, one line out).  Values are printed
   cmrf <1|2> <bc> <n> <scale> <x> <loc>         -> `value <logd> <grad> <demanded>`
   lik <dev> <J> <P> <G|_>              -> `value <grad>`  (dev = data - F(x); J m×p; P m×m; G p×n Jacobian of par2fun)
   poststatus <hasGrad> <dom> <rangeId> <precOk> <fd> <none|twolik|family> <dimgt1>  -> status of (posterior) gradient
+  likimg <C|F> <h> <w> <dev> <J> <P>   -> `value <grad>`  (Image2D domain: fun2par of the image-shaped gradient by order)
   idgeoms                              -> the assumed list of identity geometries
   logndense <x> <logx> <mu> <C>        -> `value <grad>` | `nan` | `raise`   (Lognormal prior, any covariance form)
   sum <v1> <v2> ...                    -> `value <v1+v2+...>`
@@ -254,6 +255,14 @@ def step : List String → String
     match parseVec dev, parseMat J, parseMat P, (if G = "_" then some none else (parseMat G).map some) with
     | some dev, some J, some P, some G => stepLik dev J P G
     | _, _, _, _ => "bad-op"
+  -- likimg <C|F> <h> <w> <dev> <J (m × h*w, columns = pixels row-major)> <P>  -> `value <grad in parameter order>`
+  | ["likimg", ord, h, w, dev, J, P] =>
+    match h.toNat?, w.toNat?, parseVec dev, parseMat J, parseMat P with
+    | some h, some w, some dev, some J, some P =>
+      if !(ord = "C" || ord = "F") || J.length ≠ dev.length || P.length ≠ dev.length || QMat.ncols J ≠ h * w then "raise" else
+      let G : Nat → Nat → Rat := image2dJac (ord = "F") h w
+      s!"value {fmtQs ((List.range (h * w)).map fun i => likGrad dev.length (h * w) (h * w) (fn2 P) (fn dev) (fn2 J) (some G) i)}"
+    | _, _, _, _, _ => "bad-op"
   | ["idgeoms"] => ",".intercalate identityGeometries
   -- logndense <x> <log x (leaf)> <mu> <cov matrix>  -> `value <grad>` | `nan` | `raise`
   | ["logndense", x, lx, mu, C] =>
